@@ -184,7 +184,7 @@ pub fn compose(ty: &str, cs: &[BigInt]) -> BigInt {
 pub const PRELUDE: &str = r#"
 use core::num::traits::{
     CheckedAdd, CheckedMul, CheckedSub, OverflowingAdd, OverflowingMul, OverflowingSub, Pow,
-    SaturatingAdd, SaturatingMul, SaturatingSub, Sqrt, WideMul, WrappingAdd, WrappingMul,
+    SaturatingAdd, SaturatingMul, SaturatingSub, Sqrt, WideMul, WideSquare, WrappingAdd, WrappingMul,
     WrappingSub,
 };
 fn e_u8(v: u8) -> felt252 { v.into() }
@@ -226,7 +226,7 @@ pub fn fn_name(op: &str, ty: &str, to: &str) -> String {
 /// Number of operands of an operation.
 pub fn arity(op: &str) -> usize {
     match op {
-        "not" | "neg" | "sqrt" | "into" | "try_into" | "is_zero" => 1,
+        "not" | "neg" | "sqrt" | "wide_square" | "into" | "try_into" | "is_zero" => 1,
         "mul_mod_n" | "div_mod_n" => 3,
         _ => 2,
     }
@@ -348,6 +348,10 @@ pub fn render_fn(op: &str, ty: &str, to: &str) -> (String, String, usize) {
                 format!("let r = x.wide_mul(y); {}", tuple_val(&enc(w, "r"))),
                 cells(w),
             )
+        }
+        "wide_square" => {
+            let w = wider(ty);
+            (format!("x: {ty}"), format!("let r = x.wide_square(); {}", tuple_val(&enc(w, "r"))), cells(w))
         }
         "not" => (
             format!("x: {ty}"),
